@@ -55,6 +55,38 @@ def run_simple(ctx, cases, prop, chk_filter=None, signature=None, relation=None,
             sig = signature(c, oi, v, agrees) if signature else "%s:%s:%s" % (prop, c.label, " ".join(v.split(" ")[:2]))
             failures.append({"signature": sig, "ops": list(c.ops[:oi + 1]), "impl": impl[ci][oi][:600], "model": model[ci][oi][:600],
                              "predicate": {"name": "Spec.%s" % prop, "value": v[:300]}})
+    # minimise the first failing case of each signature (ddmin over the op list; the first op, which
+    # creates the session, is kept); a candidate counts if the Spec predicate still fails on it
+    from check import run_ops, ddmin
+    shrunk = set()
+    for f in failures:
+        if f["signature"] in shrunk or len(shrunk) >= 6 or len(f["ops"]) <= 2 or len(f["ops"]) > 400:
+            continue
+        shrunk.add(f["signature"])
+        cls = " ".join(f["predicate"]["value"].split(" ")[:2])
+
+        def still_fails(ops, cls=cls):
+            io, _ = run_ops(ctx.harness, ops, timeout=120)
+            if len(io) < len(ops):
+                io = io + ["missing"] * (len(ops) - len(io))
+            if any(x in ("panic", "hang", "missing") for x in io):
+                return cls == "fails crash"
+            lines = ["chk %s | %s" % (chk_variant(o) if chk_variant else o, x) for o, x in zip(ops, io)]
+            vo, _ = run_ops(ctx.driver, lines, timeout=120)
+            vo = [verdict_filter(v) if verdict_filter else v for v in vo]
+            return any(" ".join(v.split(" ")[:2]) == cls for v in vo)
+        try:
+            head, body = f["ops"][:1], f["ops"][1:]
+            small = ddmin(body, lambda b: still_fails(head + b))
+            if len(small) < len(body) and still_fails(head + small):
+                f["ops_before_shrinking"] = len(f["ops"])
+                f["ops"] = head + small
+                io, _ = run_ops(ctx.harness, f["ops"], timeout=120)
+                mo, _ = run_ops(ctx.driver, f["ops"], timeout=120)
+                f["impl"] = (io[-1] if io else "")[:600]
+                f["model"] = (mo[-1] if mo else "")[:600]
+        except Exception as e:   # shrinking is best effort
+            f["shrink_error"] = str(e)[:200]
     idx = [0, len(cases) // 3, len(cases) // 2, len(cases) - 1] if cases else []
     samples = [{"label": cases[i].label, "ops": [o[:200] for o in cases[i].ops[:6]], "impl": [o[:200] for o in impl[i][:6]]} for i in idx]
     bysig = {}
